@@ -5,6 +5,8 @@ from symx import loader
 from checks import published_constants as PC
 
 PID = "C14"
+TECHNIQUE = "symbolic execution with HKDF replaced by a recording stub: z3 decides 'one HKDF with the published parameters on the unchanged input, result = value mod q'; pow under the exponent-law contract; Ed25519 try-and-increment over abstract points"
+LEVEL_NOTE = 'HKDF uninterpreted; Fermat; non-identity of integer-group arbitrary_element assumed (probability 1/q), verified for shipped seeds'
 EXPLANATION = (
     "The real groups.password_to_scalar/expand_password and the password_to_scalar methods of IntegerGroup (three "
     "shipped groups) and of the Ed25519 group run on a symbolic password of each stated length with HKDF replaced by a "
